@@ -125,7 +125,7 @@ class PathCtx:
     def _generalise(self, t):
         ks = [g[0] for g in self.generic]
         guard = z3.And(*[g[1] for g in self.generic])
-        self.generic_keep.append(z3.ForAll(ks, z3.Implies(guard, t)))
+        self.generic_keep.append(sym.forall_t(ks, z3.Implies(guard, t)))
 
     def assume(self, cond, tag=None):
         if cond is True:
